@@ -81,6 +81,15 @@ class NoisyEnv(gym.Env):
         elif obs == "goal":
             self.observation_space = spaces.Dict({k: spaces.Box(-big, big, (2,), np.float32)
                                                   for k in ("observation", "achieved_goal", "desired_goal")})
+        elif obs == "dict4":   # four vector keys (their concatenation order in CombinedExtractor matters)
+            self.observation_space = spaces.Dict({"vec": spaces.Box(-big, big, (2,), np.float32),
+                                                  "aux": spaces.Box(-big, big, (1,), np.float32),
+                                                  "pos": spaces.Box(-big, big, (2,), np.float32),
+                                                  "vel": spaces.Box(-big, big, (3,), np.float32)})
+        elif obs == "dictimg":  # vector keys + an image key
+            self.observation_space = spaces.Dict({"vec": spaces.Box(-big, big, (2,), np.float32),
+                                                  "aux": spaces.Box(-big, big, (1,), np.float32),
+                                                  "img": spaces.Box(0, 255, (36, 36, 1), np.uint8)})
         elif obs == "image":
             self.observation_space = spaces.Box(0, 255, (36, 36, 1), np.uint8)
         else:
@@ -119,11 +128,16 @@ class NoisyEnv(gym.Env):
             return {"vec": x32.copy(), "aux": np.array([self.t], dtype=np.float32)}
         if self.obs_kind == "goal":
             return {"observation": x32.copy(), "achieved_goal": x32.copy(), "desired_goal": self.g.astype(np.float32)}
+        if self.obs_kind == "dict4":
+            return {"vec": x32.copy(), "aux": np.array([self.t], dtype=np.float32), "pos": (x32 * np.float32(0.5)).copy(),
+                    "vel": np.array([x32[0] - x32[1], x32[0] + x32[1], np.float32(1.0)], dtype=np.float32)}
         img = np.zeros((36, 36, 1), dtype=np.uint8)
         v = np.clip((self.x * 40 + 128), 0, 255).astype(np.uint8)
         img[:18, :, 0] = v[0]
         img[18:, :, 0] = v[1]
         img[0, 0, 0] = self.t
+        if self.obs_kind == "dictimg":
+            return {"vec": x32.copy(), "aux": np.array([self.t], dtype=np.float32), "img": img}
         return img
 
     def compute_reward(self, achieved_goal, desired_goal, info):
@@ -403,6 +417,23 @@ def _walk(prefix, x, out):
         out[prefix] = repr(x)
 
 
+def probe_actions(model, venv):
+    """deterministic actions predicted by the trained model for one fixed observation"""
+    def fixed(sp):
+        n = int(np.prod(sp.shape)) if sp.shape else 1
+        if sp.dtype == np.uint8:
+            return (np.arange(n) % 251).astype(np.uint8).reshape(sp.shape)
+        return np.linspace(-1.0, 1.0, n).astype(sp.dtype).reshape(sp.shape)
+
+    sp = venv.observation_space
+    if isinstance(sp, spaces.Dict):
+        obs = {k: fixed(sp.spaces[k]) for k in sorted(sp.spaces)}
+    else:
+        obs = fixed(sp)
+    action, _ = model.predict(obs, deterministic=True)
+    return np.asarray(action)
+
+
 def final_digests(model, venv, recs):
     """component -> {key -> digest}"""
     comp = {"params": {}, "optimizer": {}, "buffer": {}, "actions": {}, "vecnormalize": {}, "state": {}}
@@ -431,6 +462,8 @@ def final_digests(model, venv, recs):
             else:
                 _walk(nm, {"mean": rms.mean, "var": rms.var, "count": rms.count}, comp["vecnormalize"])
         _walk("returns", vn.returns, comp["vecnormalize"])
+    comp["predict"] = {}
+    _walk("action", probe_actions(model, venv), comp["predict"])
     _walk("last_obs", model._last_obs, comp["state"])
     comp["state"]["num_timesteps"] = repr(int(model.num_timesteps))
     comp["state"]["episodes"] = repr(int(getattr(model, "_episode_num", 0)))
@@ -504,7 +537,8 @@ def build_env(case, amb):
     venv = base
     if wrap == "vecnorm":
         venv = VecNormalize(base, norm_obs=True, norm_reward=True, clip_obs=10.0,
-                            norm_obs_keys=(["vec"] if case["obs"] == "dict" else None))
+                            norm_obs_keys=(["vec"] if case["obs"] == "dict" else
+                                           ["vec", "aux"] if case["obs"] == "dictimg" else None))
     if case.get("opts") and case.get("opts_when") == "constructor":
         venv.set_options(make_options(case))   # the env constructor leaves reset options pending
     return base, venv
@@ -515,6 +549,8 @@ def make_shared(case):
     pk = dict(net_arch=[4])
     if case["obs"] == "image":
         pk["features_extractor_kwargs"] = dict(features_dim=8)
+    elif case["obs"] == "dictimg":
+        pk["features_extractor_kwargs"] = dict(cnn_output_dim=8)
     sh = {"policy_kwargs": pk, "noise": make_noise(case) if case["algo"] not in ON_POLICY + ("DQN",) else None,
           "rb_kwargs": None}
     if case.get("her"):
@@ -551,7 +587,7 @@ def build_model(case, seed, venv, base, shared=None):
     pk = shared["policy_kwargs"]
     if case["obs"] == "image":
         policy = "CnnPolicy"
-    elif case["obs"] in ("dict", "goal"):
+    elif case["obs"] in ("dict", "goal", "dict4", "dictimg"):
         policy = "MultiInputPolicy"
     else:
         policy = "MlpPolicy"
@@ -801,8 +837,10 @@ def shrink_candidates(case):
             yield alt(noise=case["noise"].replace("vec_", ""))
     if case.get("her"):
         yield alt(her=None, obs="box")
-    if case["obs"] in ("dict", "image"):
+    if case["obs"] in ("dict", "image") and case.get("kind") != "xproc":
         yield alt(obs="box")
+    if case["obs"] in ("dict4", "dictimg"):
+        yield alt(obs="dict")
     if case["amb_mode"] != "explicit":
         yield alt(amb_mode="explicit")
     if case["steps"] > 8:
@@ -950,7 +988,7 @@ def compare_runs(X, Y):
     return out
 
 
-COMPONENT_ORDER = ["params", "optimizer", "buffer", "actions", "vecnormalize", "state"]
+COMPONENT_ORDER = ["params", "optimizer", "buffer", "actions", "vecnormalize", "state", "predict"]
 
 
 def oracle(ctx, case, A, B, C):
